@@ -331,6 +331,14 @@ class SymExec:
                     p.frames[-1] = (fn, tgt, 0, locs, dest, ret_bb)
                     continue
                 if isinstance(v, tuple) and v and v[0] == 'cond':
+                    known = known_truth(p.assume, v[1])
+                    if known is not None:
+                        tgt = t['otherwise']
+                        for val, b in t['targets']:
+                            if val == int(known):
+                                tgt = b
+                        p.frames[-1] = (fn, tgt, 0, locs, dest, ret_bb)
+                        continue
                     opts = [(val, b) for val, b in t['targets']] + [(None, t['otherwise'])]
                     for val, b in opts:
                         if val is None:
@@ -497,6 +505,22 @@ class SymExec:
             if v[0] == 'buf':
                 return sym(f'len({v[1]})')
         raise Unsupported(f'length of {str(v)[:60]}')
+
+
+def known_truth(assume, atom):
+    """truth value of an atom already decided on this path (also through negation), else None"""
+    pol = True
+    while isinstance(atom, tuple) and atom and atom[0] == 'not':
+        atom = atom[1]
+        pol = not pol
+    for (a, tr) in assume:
+        q = True
+        while isinstance(a, tuple) and a and a[0] == 'not':
+            a = a[1]
+            q = not q
+        if a == atom:
+            return (tr == q) == pol
+    return None
 
 
 def cmp_facts(atom, truth):
